@@ -820,6 +820,32 @@ func c01R5(c *Ctx, m *runnerModel) {
 		}
 		return true
 	})
+	// the stack written as a literal with its one initial element: container.Stack[*statementQueue]{{statements: …}}
+	if pushSrc == "" && m.fStack != nil {
+		if init := m.ctorInit(w).fields[m.fStack.Name()]; init != nil {
+			lit := unparen(init)
+			for k := 0; k < 3; k++ {
+				id := identOf(lit)
+				if id == nil {
+					break
+				}
+				rhs, idx, _, okd := x.def(info.Uses[id])
+				if !okd || rhs == nil || idx >= 0 {
+					break
+				}
+				lit = unparen(rhs)
+			}
+			if cl, ok := lit.(*ast.CompositeLit); ok && len(cl.Elts) == 1 {
+				el := cl.Elts[0]
+				if u, ok := el.(*ast.UnaryExpr); ok && u.Op == token.AND {
+					el = u.X
+				}
+				if v := litField(el, "statements"); v != nil {
+					pushSrc = x.str(v)
+				}
+			}
+		}
+	}
 	if v := m.ctorInit(w).fields[m.fNode.Name()]; v != nil {
 		nodeSrc = x.str(v)
 	}
